@@ -30,21 +30,26 @@ def digitRuns : Bytes → List (Bytes × Bytes)
   | [a] => if isDigit a then [([a], [])] else []
   | [] => []
 
+/-- `\b` after the last digit: the next byte must not be a word character -/
+def escTail (pre d2 r3 : Bytes) : Option Bytes :=
+  match r3 with
+  | [] => some (pre ++ d2)
+  | x :: _ => if isWordByte x then none else some (pre ++ d2)
+
+/-- `\d{1,3}\b`, longest first -/
+def escSecond (pre r2 : Bytes) : Option Bytes := (digitRuns r2).findSome? (fun p => escTail pre p.1 p.2)
+
+/-- `\d{1,3}\.` then the second number -/
+def escFirst (c : UInt8) (d1 r1 : Bytes) : Option Bytes :=
+  match r1 with
+  | 46 :: r2 => escSecond ([c, 46] ++ d1 ++ [46]) r2
+  | _ => none
+
 /-- hand-written matcher for `^\d{3} ([245]\.\d{1,3}\.\d{1,3})\b` applied to "%03d %s" (the part after "ddd ") -/
 def escPrefix (text : Bytes) : Option Bytes :=
   match text with
   | c :: 46 :: rest =>
-    if c == 50 || c == 52 || c == 53 then
-      (digitRuns rest).findSome? (fun (d1, r1) =>
-        match r1 with
-        | 46 :: r2 =>
-          (digitRuns r2).findSome? (fun (d2, r3) =>
-            -- \b: the last digit is a word character, so the next byte must not be one
-            match r3 with
-            | [] => some ([c, 46] ++ d1 ++ [46] ++ d2)
-            | x :: _ => if isWordByte x then none else some ([c, 46] ++ d1 ++ [46] ++ d2))
-        | _ => none)
-    else none
+    if c == 50 || c == 52 || c == 53 then (digitRuns rest).findSome? (fun p => escFirst c p.1 p.2) else none
   | _ => none
 
 /-- isTempError on the unwrapped error: first character of its text is '4' -/
